@@ -252,3 +252,24 @@ contract(CMD + "PropertiesResponse.__init__",
          modifies=["self.*"],
          raises={"builtins.IndexError": {}},
          ensures={"id": "self._id == payload[0] and self._payload == payload"})
+
+
+# ---- C13: an un-fixed-up single byte corruption is always rejected (checksum arithmetic) ------------------------------------
+lemma("C13.sum_split.base",
+      params={"s": "bytes", "k": "int[0,1099511627776]"},
+      requires=["k <= len(s)"],
+      ensures={"base": "sum(s[:k]) == sum(s[:k]) + sum(s[k:k])"})
+
+lemma("C13.sum_split.step",
+      params={"s": "bytes", "k": "int[0,1099511627776]", "n": "int[0,1099511627776]"},
+      requires=["k <= n and n < len(s)", "sum(s[:n]) == sum(s[:k]) + sum(s[k:n])"],
+      ensures={"step": "sum(s[:n + 1]) == sum(s[:k]) + sum(s[k:n + 1])"},
+      notes="induction step of  sum(s[:n]) = sum(s[:k]) + sum(s[k:n])  (hypothesis as pre-condition); with the base case this is the split lemma used below")
+
+lemma("C13.single_byte_corruption_is_rejected",
+      params={"f": "bytes", "i": "int[1,1099511627776]", "v": "byte"},
+      requires=["len(f) >= 2 and i < len(f)", "outer_ok(f)", "v != f[i]",
+                # instances of the split lemma proved above (s = f[1:-1] resp. the corrupted copy, k = i - 1)
+                "implies(i < len(f) - 1, sum(f[1:-1]) == sum(f[1:i]) + f[i] + sum(f[i + 1:-1]))"],
+      let={"g": "f[:i] + bytes([v]) + f[i + 1:]"},
+      ensures={"corrupted_frame_fails_the_outer_checksum": "not outer_ok(g)"})
